@@ -212,7 +212,7 @@ def verify_contract(c: Contract, registry: Dict[str, Contract], timeout_ms=core.
         I.target_qualname = c.target
         I.callback_raise_classes = c.callback_raises
         I.opaque_may_raise = c.opaque_may_raise
-        for key, t in c.sym_globals.items():
+        for key, t in {**default_sym_globals(), **c.sym_globals}.items():
             m, n = key.split(":")
             I.sym_globals[(m, n)] = t
         for cname in c.use_contracts:
@@ -294,6 +294,17 @@ def verify_contract(c: Contract, registry: Dict[str, Contract], timeout_ms=core.
     out["stats"] = dict(core.STATS)
     out["wall_s"] = time.time() - t0
     return out
+
+
+def default_sym_globals():
+    """module-level mutable state of pandera that any function may read: always symbolic (never the live object)"""
+    from pandera.config import PanderaConfig, ValidationDepth
+
+    def cfg():
+        return T.Ref(PanderaConfig, strict=True, validation_enabled=T.Bool, validation_depth=T.Opt(T.EnumOf(ValidationDepth)),
+                     cache_dataframe=T.Bool, keep_cached_dataframe=T.Bool)
+
+    return {"pandera.config:_CONTEXT_CONFIG": cfg(), "pandera.config:CONFIG": cfg()}
 
 
 def _opaque_result(I, name):
